@@ -177,7 +177,7 @@ def failing(workdir, spec, which):
     return len(got) > 0
 
 
-def shrink(workdir, spec, which, budget=40):
+def shrink(workdir, spec, which, budget=24):
     """delta-debug the operation list of a failing sequence (re-running the real code each time)"""
     best = dict(spec)
     changed = True
@@ -293,7 +293,7 @@ def check(run):
             run.violation(dict(kind='monitor', code=k, what=KINDS.get(k), key=key, spec=small, failing_step=s,
                                failing_op=obs['op'], observed=dict(pairs=obs['pairs'], erc20=obs['erc20'], denom=obs['denom'])),
                           name='%s_h%d.json' % (prefix, h if h >= 0 else 0))
-            if len(run.violations) >= 3:
+            if len(run.violations) >= 2:
                 break
 
     report_monitor(results, ff, 'replay')
